@@ -7,6 +7,7 @@ import Drx.Link
 import DrxProofs.SpecCompile
 namespace Drx.Link
 open Drx Drx.Lscr Drx.Gen Drx.Spec
+set_option linter.unusedSimpArgs false
 
 /-! ### bytes at an address -/
 
@@ -29,6 +30,7 @@ theorem pyGet_nat {α} (l : List α) (i : Nat) : pyGet l (i : Int) = match l[i]?
   unfold pyGet
   have h1 : ¬ ((i : Int) < 0) := by omega
   simp only [h1, if_false, Int.toNat_natCast]
+  cases l[i]? <;> rfl
 
 theorem CodeAt.get {d : Bytes} {a : Nat} {b : UInt8} {y : Bytes} (h : CodeAt d a (b :: y)) : d[a]? = some b := by
   obtain ⟨pre, post, hd, hl⟩ := h
@@ -192,11 +194,18 @@ theorem opcodeLoop_run (ctx : Lscr.Ctx) (d : Bytes) (bcOff bcLen : Nat) :
       refine ⟨regs2, ?_⟩
       rw [opcodeLoop]
       have hlt : (a : Int) - (bcOff : Int) < (bcLen : Int) := by omega
-      simp only [hlt, if_true, hstep, Except.map]
-      have hgt : ((a + i.size : Nat) : Int) > (a : Int) := by omega
-      simp only [hgt, dite_true]
-      rw [hrest]
-      simp only [codeSize, Nat.add_assoc]
+      simp only [hlt, if_true]
+      split
+      · rename_i e heq
+        rw [hstep] at heq
+        simp [Except.map] at heq
+      · rename_i r heq
+        rw [hstep] at heq
+        simp only [Except.map, Except.ok.injEq] at heq
+        subst heq
+        simp only
+        rw [hrest]
+        simp only [codeSize, Nat.add_assoc]
 
 /-- at the end of the code area the loop stops -/
 theorem opcodeLoop_end (ctx : Lscr.Ctx) (d : Bytes) (bcOff bcLen : Nat) (regs : Regs) (st : PState) :
